@@ -99,11 +99,19 @@ AddAndCommitEach(st, docs) ==
 
 PerDocCommit(fe) == fe \in {"ffi", "libffi"}
 
+(* delete(ids): each entry is [id, trimmed, padded] - the id as given, the  *)
+(* id without surrounding white space, and whether the two differ (TLC has *)
+(* no string operators; the driver logs all three).  The Rust API deletes  *)
+(* exactly the id it is given, and so must every front end.                *)
+IdsOf(op) == [i \in DOMAIN op.ids |-> op.ids[i].id]
+TrimmedIdsOf(op) == [i \in DOMAIN op.ids |-> op.ids[i].trimmed]
+AnyPadded(op) == \E i \in DOMAIN op.ids : op.ids[i].padded
+
 Effect(fe, op, st) ==
   CASE op.kind = "init" -> InitState
     [] op.kind \in {"add", "update"} ->
          IF PerDocCommit(fe) THEN AddAndCommitEach(st, op.docs) ELSE QueueAdds(st, op.docs)
-    [] op.kind = "delete" -> [st EXCEPT !.wal = @ \o DelOps(op.ids)]
+    [] op.kind = "delete" -> [st EXCEPT !.wal = @ \o DelOps(IdsOf(op))]
     [] op.kind = "commit" -> CommitState(st)
     [] op.kind \in {"compact", "search"} -> st
 
